@@ -91,8 +91,17 @@ type DB struct {
 	Log []*Stmt
 	// Msgs is the list of frontend message type bytes received (diagnostics / frame checks)
 	Msgs []string
+	// Binds is every Bind message received (parameters as forwarded by the proxy)
+	Binds []BindRec
+	// Parses is the statement text of every Parse message received
+	Parses []string
 	// FailNext makes the next executed statement fail with an ErrorResponse (to exercise error paths)
 	FailNext bool
+	// Canned, when set, is the answer to every row-returning execution: these rows verbatim (one bytea
+	// column per value), whatever the statement says
+	Canned [][]Val
+	// Sent is every DataRow sent (values as on the wire)
+	Sent [][]Val
 }
 
 func NewDB(defs []TableDef) *DB {
@@ -116,6 +125,15 @@ func (db *DB) Put(table string, row []Val) {
 	db.mu.Lock()
 	defer db.mu.Unlock()
 	db.rows[table] = append(db.rows[table], row)
+}
+
+// BindRec is a Bind message as the database received it.
+type BindRec struct {
+	Stmt   string
+	SQL    string
+	Params [][]byte
+	PFmt   []int16
+	RFmt   []int16
 }
 
 type recConn struct {
@@ -224,6 +242,9 @@ func (db *DB) Serve(conn net.Conn) {
 			if skip {
 				continue
 			}
+			db.mu.Lock()
+			db.Parses = append(db.Parses, m.Query)
+			db.mu.Unlock()
 			tree, perr := pg_query.Parse(m.Query)
 			if perr != nil || len(tree.Stmts) > 1 {
 				db.logStmt(&Stmt{Kind: "other", SQL: m.Query, Err: "syntax"})
@@ -253,6 +274,9 @@ func (db *DB) Serve(conn net.Conn) {
 				}
 			}
 			portals[m.DestinationPortal] = p
+			db.mu.Lock()
+			db.Binds = append(db.Binds, BindRec{Stmt: m.PreparedStatement, SQL: ps.sql, Params: p.params, PFmt: p.pfmt, RFmt: p.rfmt})
+			db.mu.Unlock()
 			be.Send(&pgproto3.BindComplete{})
 		case *pgproto3.Describe:
 			db.note("D")
@@ -476,12 +500,12 @@ func cell(n *pg_query.Node, params [][]byte, pfmt []int16) ([]byte, bool, bool, 
 			return []byte(s), false, false, "lit:" + s, nil
 		case c.GetIval() != nil:
 			s := strconv.Itoa(int(c.GetIval().GetIval()))
-			return []byte(s), false, false, "lit:" + s, nil
+			return []byte(s), false, false, "num:" + s, nil
 		case c.GetFval() != nil:
 			s := c.GetFval().GetFval()
-			return []byte(s), false, false, "lit:" + s, nil
+			return []byte(s), false, false, "num:" + s, nil
 		case c.Val == nil: // integer 0 is encoded as an A_Const with Ival{} that may come back nil
-			return []byte("0"), false, false, "lit:0", nil
+			return []byte("0"), false, false, "num:0", nil
 		}
 	}
 	if p := n.GetParamRef(); p != nil {
@@ -553,8 +577,13 @@ func targets(list []*pg_query.Node, t *TableDef, alias string) ([]outCol, error)
 	var out []outCol
 	for _, n := range list {
 		rt := n.GetResTarget()
-		if rt == nil || rt.GetVal().GetColumnRef() == nil {
+		if rt == nil {
 			return nil, errf("0A000", "fakepg: unsupported target")
+		}
+		if rt.GetVal().GetColumnRef() == nil {
+			// any other expression: a constant integer column
+			out = append(out, outCol{"?column?", -1})
+			continue
 		}
 		f := rt.GetVal().GetColumnRef().GetFields()
 		if len(f) == 2 {
@@ -594,6 +623,10 @@ func rowDesc(t *TableDef, cols []outCol, rfmt []int16) *pgproto3.RowDescription 
 		if fmtAt(rfmt, i) {
 			f = 1
 		}
+		if c.idx < 0 {
+			rd.Fields = append(rd.Fields, pgproto3.FieldDescription{Name: []byte(c.name), DataTypeOID: 23, DataTypeSize: 4, TypeModifier: -1, Format: f})
+			continue
+		}
 		rd.Fields = append(rd.Fields, pgproto3.FieldDescription{Name: []byte(c.name), TableOID: 16384, TableAttributeNumber: uint16(c.idx + 1),
 			DataTypeOID: t.Cols[c.idx].Type.OID(), DataTypeSize: -1, TypeModifier: -1, Format: f})
 	}
@@ -603,6 +636,10 @@ func rowDesc(t *TableDef, cols []outCol, rfmt []int16) *pgproto3.RowDescription 
 func dataRow(t *TableDef, cols []outCol, row []Val, rfmt []int16) *pgproto3.DataRow {
 	dr := &pgproto3.DataRow{}
 	for i, c := range cols {
+		if c.idx < 0 {
+			dr.Values = append(dr.Values, Output(Int4, []byte("2"), fmtAt(rfmt, i)))
+			continue
+		}
 		v := row[c.idx]
 		if v == nil {
 			dr.Values = append(dr.Values, nil)
@@ -765,11 +802,41 @@ func (db *DB) exec(sql string, tree *pg_query.ParseResult, params [][]byte, pfmt
 		return bad(errf("23505", "fakepg: injected failure"))
 	}
 	st := tree.Stmts[0].Stmt
+	if db.Canned != nil {
+		var out []pgproto3.BackendMessage
+		if simple && len(db.Canned) > 0 {
+			rd := &pgproto3.RowDescription{}
+			for i := range db.Canned[0] {
+				rd.Fields = append(rd.Fields, pgproto3.FieldDescription{Name: []byte(fmt.Sprintf("c%d", i)), DataTypeOID: 17, DataTypeSize: -1, TypeModifier: -1})
+			}
+			out = append(out, rd)
+		}
+		for _, r := range db.Canned {
+			dr := &pgproto3.DataRow{}
+			for _, v := range r {
+				if v == nil {
+					dr.Values = append(dr.Values, nil)
+				} else {
+					dr.Values = append(dr.Values, append([]byte{}, *v...))
+				}
+			}
+			out = append(out, dr)
+			db.Sent = append(db.Sent, r)
+		}
+		return out, fmt.Sprintf("SELECT %d", len(db.Canned)), nil
+	}
 	t, cols, err := db.shape(tree)
 	if err != nil {
 		return bad(err)
 	}
 	var out []pgproto3.BackendMessage
+	defer func() {
+		for _, o := range out {
+			if dr, ok := o.(*pgproto3.DataRow); ok {
+				db.Sent = append(db.Sent, copyVals(dr.Values))
+			}
+		}
+	}()
 	if len(cols) > 0 && simple {
 		out = append(out, rowDesc(t, cols, nil))
 	}
